@@ -328,14 +328,17 @@ func genGadgetCase(t *rapid.T, g, field string, q *big.Int) Case {
 		c.In = dec(append([]*big.Int{st, en}, genElems(t, q, n, "in")...)...)
 	case "bitslice.Partition":
 		fb := q.BitLen()
-		digits := rapid.SampledFrom([]int{0, 0, 1, 2, 7, 8, 9, 16, 31, 32, 64, 65, 128, fb - 2, fb - 1, fb, fb + 3}).Draw(t, "digits")
+		digits := rapid.SampledFrom([]int{0, 0, 1, 2, 7, 8, 9, 16, 31, 32, 64, 65, 128, fb - 2, fb - 1, fb, fb, fb + 1, fb + 3}).Draw(t, "digits")
 		width := digits
 		if digits == 0 || digits >= fb {
 			width = fb - 1 // largest split the decomposition path accepts
 		}
-		split := rapid.SampledFrom([]int{0, 0, 1, width / 2, width - 1, width - 1, width}).Draw(t, "split")
+		split := rapid.SampledFrom([]int{0, 0, 1, 1, 7, 64, width / 2, width - 1, width - 1, width}).Draw(t, "split")
 		if split < 0 {
 			split = 0
+		}
+		if split > width {
+			split = width - 1
 		}
 		nocheck := 0
 		if digits > 0 && rapid.IntRange(0, 5).Draw(t, "nocheck") == 0 {
@@ -347,7 +350,15 @@ func genGadgetCase(t *rapid.T, g, field string, q *big.Int) Case {
 		if dw == 0 || dw > fb {
 			dw = fb
 		}
-		switch rapid.IntRange(0, 6).Draw(t, "v-kind") {
+		switch rapid.IntRange(0, 9).Draw(t, "v-kind") {
+		case 7:
+			v = big.NewInt(int64(rapid.SampledFrom([]int{0, 1, 5}).Draw(t, "v-small")))
+		case 8:
+			// largest values whose alias v + p still fits fb bits: 2^fb - p - 1 (fits) and 2^fb - p (does not)
+			v = new(big.Int).Sub(pow2(fb), q)
+			v.Sub(v, big.NewInt(int64(rapid.IntRange(0, 1).Draw(t, "v-alias"))))
+		case 9:
+			v = new(big.Int).Sub(pow2(split), big.NewInt(1))
 		case 0:
 			v = new(big.Int).Sub(pow2(dw), big.NewInt(1))
 		case 1:
@@ -491,4 +502,84 @@ func TestCurvesUintsLogic(t *testing.T) {
 		maybeStrat(rt, &c, fieldByName("bn254").Q, 50)
 		rec.Report(rt, "gadget", c, run(c))
 	})
+}
+
+// TestCurvesWidthBoundary enumerates, on bn254 and bls12-377 and both builders,
+// the region where a declared width meets the field bit length: there a value
+// v and v + p both fit the width, so every decomposition must be pinned to the
+// canonical one. bitslice.Partition: nbDigits in {fb-2, fb-1, fb, fb+1, fb+3}
+// x split in {1, 7, 64, fb-1} x v in {0, 1, 5, 2^split-1, 2^fb-p-1, 2^fb-p};
+// IsLessBinary / IsLessOrEqualBinary: bit counts fb-3 .. fb+2 with operands that
+// differ in the top bits or are >= p as binary numbers. Honest in the three
+// modes, then every strategy of the gadget's menu (among them the slices /
+// bits of v + p) on R1CS and SCS.
+func TestCurvesWidthBoundary(t *testing.T) {
+	rec := ev.Get(ID)
+	rec.SetRule("width boundary: deterministic grid on bn254 and bls12-377 of bitslice.Partition with nbDigits around the field bit length (fb-2..fb+3) x split {1,7,64,fb-1} x v {0,1,5,2^split-1,2^fb-p-1,2^fb-p} and of IsLess(OrEqual)Binary with fb-3..fb+2 bits, honest in engine/R1CS/SCS and under every menu strategy (incl. the decomposition of v+p) on R1CS/SCS")
+	e := newEnum(t)
+	e.group(1, 1)
+	both := func(c Case, q *big.Int) {
+		for _, mode := range allModes {
+			cc := c
+			cc.Mode = mode
+			e.do(cc)
+		}
+		menu := stratMenu(c.G, c.P, c.bound(), q)
+		for _, mode := range compiledModes {
+			for i := range menu {
+				cc := c
+				cc.Mode = mode
+				st := menu[i]
+				cc.Strat = &st
+				e.do(cc)
+			}
+		}
+	}
+	for _, field := range []string{"bn254", "bls12-377"} {
+		q := fieldByName(field).Q
+		fb := q.BitLen()
+		e.group(1, 1)
+		for _, digits := range []int{fb - 2, fb - 1, fb, fb + 1, fb + 3} {
+			for _, split := range []int{1, 7, 64, fb - 1} {
+				vs := []*big.Int{big.NewInt(0), big.NewInt(1), big.NewInt(5),
+					new(big.Int).Sub(pow2(split), big.NewInt(1)),
+					new(big.Int).Sub(new(big.Int).Sub(pow2(fb), q), big.NewInt(1)),
+					new(big.Int).Sub(pow2(fb), q)}
+				for _, v := range vs {
+					both(Case{G: "bitslice.Partition", Field: field, P: []int{split, digits, 0}, In: dec(new(big.Int).Mod(v, q))}, q)
+				}
+			}
+		}
+		e.group(2, 1)
+		for _, g := range []string{"cmp.IsLessBinary", "cmp.IsLessOrEqualBinary"} {
+			for n := fb - 3; n <= fb+2; n++ {
+				ones := new(big.Int).Sub(pow2(n), big.NewInt(1))
+				pm1 := new(big.Int).Sub(q, big.NewInt(1))
+				pairs := [][2]*big.Int{
+					{ones, ones},
+					{new(big.Int).Sub(ones, pow2(n-1)), ones}, // differ in the top bit only
+					{ones, new(big.Int).Sub(ones, pow2(n-1))},
+					{new(big.Int).Sub(ones, pow2(n-2)), ones},
+					{ones, new(big.Int).Sub(ones, pow2(n-3))},
+					{pow2(n - 1), new(big.Int).Sub(pow2(n-1), big.NewInt(1))},
+					{big.NewInt(0), big.NewInt(1)},
+					{pm1, q}, // p-1 against p as binary numbers (p only fits from fb bits on)
+					{q, pm1},
+					{q, new(big.Int).Add(q, big.NewInt(1))},
+				}
+				for _, pr := range pairs {
+					if pr[0].BitLen() > n || pr[1].BitLen() > n {
+						continue
+					}
+					in := make([]*big.Int, 2*n)
+					for i := 0; i < n; i++ {
+						in[i] = big.NewInt(int64(pr[0].Bit(i)))
+						in[n+i] = big.NewInt(int64(pr[1].Bit(i)))
+					}
+					both(Case{G: g, Field: field, P: []int{n}, In: dec(in...)}, q)
+				}
+			}
+		}
+	}
+	rec.AddExtra("width_boundary_cases", e.done)
 }
